@@ -369,8 +369,13 @@ Lemma sorted_edges_rename r fs : injective r ->
   sorted_edges (map (rename_face r) fs) = map (rename_edge r) (sorted_edges fs).
 Proof.
   intros Hr. unfold sorted_edges, raw_edges. rewrite !map_app, !map_map.
-  repeat f_equal; apply map_ext; intros [[a b] c]; unfold rename_face, f0, f1, f2; simpl;
-    symmetry; apply (rename_sort2 r (_, _) Hr).
+  assert (E : forall (p q : face -> N),
+             (forall x, p (rename_face r x) = r (p x)) -> (forall x, q (rename_face r x) = r (q x)) ->
+             map (fun x => sort2 (p (rename_face r x), q (rename_face r x))) fs
+             = map (fun x => rename_edge r (sort2 (p x, q x))) fs).
+  { intros p q Hp Hq. apply map_ext. intros x. rewrite Hp, Hq.
+    symmetry. apply (rename_sort2 r (p x, q x) Hr). }
+  rewrite (E f0 f1), (E f1 f2), (E f0 f2); try reflexivity; intros [[a b] c]; reflexivity.
 Qed.
 
 Lemma rename_edge_inj r e1 e2 : injective r -> is_sorted e1 -> is_sorted e2 ->
@@ -425,4 +430,25 @@ Lemma status_open_rename r fs : injective r -> status_open (map (rename_face r) 
 Proof.
   intros Hr. unfold status_open.
   rewrite (Permutation_length (open_edges_rename r fs Hr)), map_length. reflexivity.
+Qed.
+
+(* ------------------------------------------------------------------ packaged statements *)
+Lemma open_invariant_equiv fs fs' : mesh_equiv fs fs' ->
+  get_open_edges fs = get_open_edges fs' /\ status_open fs = status_open fs'.
+Proof. intros H. split; [apply open_edges_equiv, H | apply status_open_equiv, H]. Qed.
+
+Lemma open_invariant_rename r fs : injective r ->
+  Permutation (get_open_edges (map (rename_face r) fs)) (map (rename_edge r) (get_open_edges fs))
+  /\ status_open (map (rename_face r) fs) = status_open fs.
+Proof. intros H. split; [apply open_edges_rename, H | apply status_open_rename, H]. Qed.
+
+Definition tet : list face := [(0, 1, 2); (0, 3, 1); (1, 3, 2); (2, 3, 0)]%N.
+
+Lemma open_nonvacuous :
+  Forall nondegenerate tet /\ closed_mesh tet /\ status_open tet = false /\ status_open (tl tet) = true.
+Proof.
+  assert (Hn : Forall nondegenerate tet).
+  { unfold tet. repeat constructor; unfold f0, f1, f2; simpl; discriminate. }
+  split; [exact Hn |]. split; [| split; vm_compute; reflexivity].
+  apply (proj1 (open_iff tet Hn)). vm_compute. reflexivity.
 Qed.
